@@ -143,3 +143,10 @@ Definition xo_trace (bitwidth : Z) (ins : list (Z * Z * Z)) : list (list Z) :=
   map pr2 (m_xo_run bitwidth xo_init ins).
 Definition tv_trace (bitwidth bpc : Z) (ins : list (Z * Z * Z)) : list (list Z) :=
   map pr2 (m_tv_run bitwidth bpc tv_init ins).
+(* trace summaries (see PrngSpec.summary) *)
+Definition lfsr_sum (bitwidth : Z) (ins : list (Z * Z * Z)) : list (list Z) :=
+  summary (map (fun r => Z.shiftl r 1) (m_lfsr_run bitwidth 0 ins)).
+Definition xo_sum (bitwidth : Z) (ins : list (Z * Z * Z)) : list (list Z) :=
+  summary (map enc_cycle (m_xo_run bitwidth xo_init ins)).
+Definition tv_sum (bitwidth bpc : Z) (ins : list (Z * Z * Z)) : list (list Z) :=
+  summary (map enc_cycle (m_tv_run bitwidth bpc tv_init ins)).
